@@ -129,10 +129,23 @@ def _build(g, stage, payload):
 
 
 def _render_scfg(scfg):
+    from vpbt import canon
+
+    before = canon.dump(scfg, ordered=True)
     try:
-        return SCFGRenderer(scfg).render_scfg().source
+        src = SCFGRenderer(scfg).render_scfg().source
     except Exception as e:
         raise M.Viol(f"D-raise:{type(e).__name__}", f"SCFGRenderer raised {type(e).__name__}: {e}")
+    if canon.dump(scfg, ordered=True) != before:
+        raise M.Viol("D-mutates", "rendering changed the graph it was given")
+    # a second drawing of the same graph by a fresh renderer is the same text (nothing is consumed or remembered)
+    try:
+        src2 = SCFGRenderer(scfg).render_scfg().source
+    except Exception as e:
+        raise M.Viol(f"D-raise:{type(e).__name__}", f"second SCFGRenderer raised {type(e).__name__}: {e}")
+    if src2 != src:
+        raise M.Viol("D-again", "drawing the same graph a second time gives a different DOT source")
+    return src
 
 
 def _eval(col, intg, g, origin):
